@@ -349,32 +349,50 @@ func (l *noMixConstraintImpl) EstimateIsViolated(
 	move SolutionMoveStops,
 ) (isViolated bool, stopPositionsHint StopPositionsHint) {
 	moveImpl := move.(*solutionMoveStopsImpl)
-	_, hasRemoveMixItem := l.remove[moveImpl.stopPositions[0].Stop().ModelStop()]
+
+	// Stops that are not associated with a mix item do not change the content
+	// of the vehicle, the first stop of the move that is associated with one
+	// decides.
+	first := -1
+	for idx, stopPosition := range moveImpl.stopPositions {
+		modelStop := stopPosition.Stop().ModelStop()
+		_, hasInsert := l.insert[modelStop]
+		_, hasRemove := l.remove[modelStop]
+		if hasInsert || hasRemove {
+			first = idx
+			break
+		}
+	}
+	if first == -1 {
+		// If no stop is associated with any mix item, then the constraint
+		// cannot be violated (as it is not mixing any new item between existing
+		// ones).
+		return false, constNoPositionsHint
+	}
+
+	_, hasRemoveMixItem := l.remove[moveImpl.stopPositions[first].Stop().ModelStop()]
 	if hasRemoveMixItem {
 		return true, constNoPositionsHint
 	}
 
-	previousStopImp := moveImpl.stopPositions[0].Previous()
+	// The closest planned stop in front of that stop, the stops of the move in
+	// between are not associated with a mix item.
+	previousStopImp := moveImpl.stopPositions[first].Previous()
+	for idx := first; idx > 0 && !previousStopImp.IsPlanned(); idx-- {
+		previousStopImp = moveImpl.stopPositions[idx-1].Previous()
+	}
 	previousNoMixData := previousStopImp.ConstraintData(l).(*noMixSolutionStopData)
 	contentName := previousNoMixData.content.Name
 	contentQuantity := previousNoMixData.content.Quantity
 
 	deltaQuantity := 0
 
-	insertMixItem, hasInsertMixItem := l.insert[moveImpl.stopPositions[0].Stop().ModelStop()]
+	insertMixItem, hasInsertMixItem := l.insert[moveImpl.stopPositions[first].Stop().ModelStop()]
 	if hasInsertMixItem {
 		if contentName != insertMixItem.Name && previousNoMixData.content.Quantity != 0 {
 			return true, constNoPositionsHint
 		}
 		deltaQuantity += insertMixItem.Quantity
-	}
-
-	if !hasRemoveMixItem && !hasInsertMixItem {
-		// If the stop is not associated with any mix item, then the constraint
-		// cannot be violated (as it is not mixing any new item between existing
-		// ones). Note that the content name of all stops of a move is the same,
-		// so it is enough to check the first stop.
-		return false, constNoPositionsHint
 	}
 
 	tour := previousNoMixData.tour
@@ -384,7 +402,7 @@ func (l *noMixConstraintImpl) EstimateIsViolated(
 		tour++
 	}
 
-	for idx := 1; idx < len(moveImpl.stopPositions); idx++ {
+	for idx := first + 1; idx < len(moveImpl.stopPositions); idx++ {
 		previousStopImp = moveImpl.stopPositions[idx].Previous()
 		if previousStopImp.IsPlanned() {
 			previousNoMixData = previousStopImp.ConstraintData(l).(*noMixSolutionStopData)
